@@ -64,15 +64,15 @@ pub struct Scn {
 
 pub struct B1;
 
-struct World {
-    names: [String; 3],
-    sks: [[u8; 32]; 3],
-    pws: [String; 3],
-    salts: [[u8; 32]; 3],
-    file_pw: String,
+pub struct World {
+    pub names: [String; 3],
+    pub sks: [[u8; 32]; 3],
+    pub pws: [String; 3],
+    pub salts: [[u8; 32]; 3],
+    pub file_pw: String,
 }
 
-fn world(seed: u64) -> World {
+pub fn world(seed: u64) -> World {
     let mut r = Rng::new(seed);
     let mut name = |r: &mut Rng, base: &str| format!("{}-{:08x}{:04x}", base, r.below(1 << 32), r.below(1 << 16));
     let names = [name(&mut r, "alice"), name(&mut r, "bobby"), name(&mut r, "carol")];
